@@ -19,6 +19,7 @@ import EPV.Lemmas.StringsJoin
 import EPV.Lemmas.StringsCollation
 import EPV.Lemmas.StringsToken
 import EPV.Lemmas.StringsNumber
+import EPV.Lemmas.StringsCase2
 namespace EPV.C09
 open EPV.FOStrings (Str Num Err)
 open EPV
@@ -637,5 +638,36 @@ theorem for_product_eq_single_calls (xs ys zs : List Str) :
     simp only [translate_eq_spec]
   · unfold FOStrings.forProduct2
     simp only [substring_before_eq_spec]
+
+
+/-! ## Final_Sigma: the two readings; codepoints-to-string on arbitrary items -/
+
+/-- For any tables in which no character is both Cased and Case_Ignorable, CPython's `lower()` is the
+default lower-casing with Final_Sigma read literally (Unicode Table 3-17). -/
+theorem lower_case_eq_literal (lo : Nat → Str) (cased ign : Nat → Bool)
+    (h : ∀ c, ¬ (cased c = true ∧ ign c = true)) (s : Str) :
+    Strings.lowerCase lo cased ign s = FOStrings.lowerCaseLiteral lo cased ign s :=
+  Strings.lowerCase_eq_literal lo cased ign h s
+
+/-- PARTIAL (known finding F09k).  Full statement: on any sequence of items `codepoints-to-string`
+raises the error the function conversion rules prescribe for the first unacceptable item (FORG0001 for
+an untyped value that is not an integer, XPTY0004 for any other non-integer, FOCH0001 for an integer
+that is not an XML character) and otherwise returns the string.  Proved whenever that first
+unacceptable item is not a non-integer *number*, for which the code answers FORG0006 (pinned by the
+suite). -/
+theorem codepoints_to_string_items_partial (l : List FOStrings.CpItem)
+    (h : Strings.cpItemsTrigger l = false) :
+    Strings.codepointsToStringItems l = FOStrings.codepointsToStringItems l :=
+  Strings.codepointsToStringItems_eq_spec l h
+
+/-- F09k witness: `codepoints-to-string((65, 2309.1))` -/
+theorem codepoints_to_string_items_fails :
+    Strings.codepointsToStringItems [.int 65, .other] = .error .FORG0006 ∧
+    FOStrings.codepointsToStringItems [.int 65, .other] = .error .XPTY0004 ∧
+    Strings.cpItemsTrigger [.int 65, .other] = true := ⟨rfl, rfl, rfl⟩
+
+/-- the hypothesis is satisfiable on a non-trivial sequence: an integer, an untyped `66`, a string -/
+example : Strings.cpItemsTrigger [.int 65, .untyped (some 66), .str] = false ∧
+    Strings.codepointsToStringItems [.int 65, .untyped (some 66)] = .ok [65, 66] := ⟨rfl, rfl⟩
 
 end EPV.C09
